@@ -135,3 +135,118 @@ package queryparser
 //@     invariant l.state == nil ==> Stopped(l)
 //@     invariant forall j int :: 0 <= j && j < l.ntoks ==> 0 <= l.tstart[j] && l.tstart[j] <= l.tend[j] && l.tend[j] <= len(l.input)
 //@     decreases 2 * (len(l.input) - l.pos) + (l.state == fnref("lexText") ? 1 : 0)
+
+// ---- trusted summaries: starting the lexer goroutine, receiving an item, draining
+// lex: the goroutine runs (*lexer).run, whose verified postcondition is what the log satisfies when all items are out
+//@ trusted func lex(input) (l)
+//@   fresh
+//@   ensures l.input == input && Stopped(l) && l.rd == 0 && l.lastPos == 0
+//@   ensures forall j int :: 0 <= j && j < l.ntoks ==> 0 <= l.tstart[j] && l.tstart[j] <= l.tend[j] && l.tend[j] <= len(l.input)
+// nextItem: the next logged item; after the final item the channel is closed and a receive yields the zero item at once
+//@ trusted func (*lexer).nextItem(l) (it)
+//@   requires l != nil && 0 <= l.rd
+//@   modifies l.rd; l.lastPos
+//@   ensures l.rd == old(l.rd) + 1
+//@   ensures old(l.rd) < l.ntoks ==> it.typ == l.ttyp[old(l.rd)] && it.pos == l.tstart[old(l.rd)]
+//@   ensures old(l.rd) >= l.ntoks ==> it.typ == 0 && it.pos == 0
+//@   ensures l.lastPos == it.pos
+// drain: receives until the channel is closed — afterwards every item has been received and the goroutine has returned
+//@ trusted func (*lexer).drain(l)
+//@   requires l != nil
+//@   modifies l.rd
+//@   ensures l.rd >= l.ntoks && l.rd >= old(l.rd)
+
+// ---- parser
+//@ pure tokTyp(l *lexer, j int) int := (j < l.ntoks) ? l.ttyp[j] : 0
+//@ pred PInv(p *parser) := p != nil && p.lexer != nil && Stopped(p.lexer) && 0 <= p.peekCount && p.peekCount <= 1 && p.peekCount <= p.lexer.rd
+//@   && 0 <= p.lexer.lastPos && p.lexer.lastPos <= len(p.lexer.input)
+//@   && (forall j int :: 0 <= j && j < p.lexer.ntoks ==> 0 <= p.lexer.tstart[j] && p.lexer.tstart[j] <= len(p.lexer.input))
+//@   && (p.peekCount == 1 ==> p.token[0].typ == tokTyp(p.lexer, p.lexer.rd - 1))
+//@ pure cn(p *parser) int := p.lexer.rd - p.peekCount
+
+//@ func [C09] (*parser).peek(p) (it)
+//@   requires PInv(p)
+//@   modifies p.peekCount; p.token[*]; p.lexer.rd; p.lexer.lastPos
+//@   ensures [C09] PInv(p) && p.peekCount == 1 && it.typ == tokTyp(p.lexer, p.lexer.rd - 1)
+//@   ensures [C09] consumes_nothing: old(p.peekCount) == 1 ==> p.lexer.rd == old(p.lexer.rd)
+//@   ensures [C09] old(p.peekCount) == 0 ==> p.lexer.rd == old(p.lexer.rd) + 1
+
+//@ func [C09] (*parser).next(p) (it)
+//@   requires PInv(p)
+//@   modifies p.peekCount; p.token[*]; p.lexer.rd; p.lexer.lastPos
+//@   ensures [C09] PInv(p) && p.peekCount == 0
+//@   ensures [C09] old(p.peekCount) == 1 ==> p.lexer.rd == old(p.lexer.rd) && it.typ == tokTyp(p.lexer, p.lexer.rd - 1)
+//@   ensures [C09] old(p.peekCount) == 0 ==> p.lexer.rd == old(p.lexer.rd) + 1 && it.typ == tokTyp(p.lexer, p.lexer.rd - 1)
+
+// errorf never returns: it panics with an error value (which parser.recover turns into the returned error)
+//@ func [C09] (*parser).errorf(p, fmtstr, args)
+//@   requires p != nil && p.lexer != nil && 0 <= p.lexer.lastPos && p.lexer.lastPos <= len(p.lexer.input)
+//@   raises always
+
+// parse functions: consume at least one item, return a non-nil tree, or panic with an error (via errorf)
+//@ func [C09] (*parser).parseExpr(p) (e)
+//@   requires PInv(p)
+//@   modifies p.peekCount; p.token[*]; p.lexer.rd; p.lexer.lastPos
+//@   raises may
+//@   ensures [C09] PInv(p) && e != nil && cn(p) > old(cn(p))
+//@ func [C09] (*parser).parseSimpleExpr(p) (e)
+//@   requires PInv(p)
+//@   modifies p.peekCount; p.token[*]; p.lexer.rd; p.lexer.lastPos
+//@   raises may
+//@   ensures [C09] PInv(p) && e != nil && cn(p) > old(cn(p))
+//@ func [C09] (*parser).parseGroupedExpr(p) (e)
+//@   requires PInv(p)
+//@   modifies p.peekCount; p.token[*]; p.lexer.rd; p.lexer.lastPos
+//@   raises may
+//@   ensures [C09] PInv(p) && e != nil && cn(p) > old(cn(p))
+//@ func [C09] (*parser).parseAndExpr(p, firstExpr) (e)
+//@   requires PInv(p) && firstExpr != nil
+//@   modifies p.peekCount; p.token[*]; p.lexer.rd; p.lexer.lastPos
+//@   raises may
+//@   ensures [C09] PInv(p) && e != nil && cn(p) >= old(cn(p))
+//@   ensures [C09] chain_is_one_node: typeof(e.Value) == ptrtag(updogv1.Query_Expression_And_) && iref(e.Value) != nil
+//@   loop 1
+//@     invariant PInv(p) && cn(p) >= old(cn(p)) && len(exprs) >= 1
+//@     invariant arr(exprs) != nil && !(arr(exprs) in old($alloc))
+//@ func [C09] (*parser).parseOrExpr(p, firstExpr) (e)
+//@   requires PInv(p) && firstExpr != nil
+//@   modifies p.peekCount; p.token[*]; p.lexer.rd; p.lexer.lastPos
+//@   raises may
+//@   ensures [C09] PInv(p) && e != nil && cn(p) >= old(cn(p))
+//@   ensures [C09] chain_is_one_node: typeof(e.Value) == ptrtag(updogv1.Query_Expression_Or_) && iref(e.Value) != nil
+//@   loop 1
+//@     invariant PInv(p) && cn(p) >= old(cn(p)) && len(exprs) >= 1
+//@     invariant arr(exprs) != nil && !(arr(exprs) in old($alloc))
+//@ func [C09] (*parser).parseComparison(p) (e)
+//@   requires PInv(p)
+//@   modifies p.peekCount; p.token[*]; p.lexer.rd; p.lexer.lastPos
+//@   raises may
+//@   ensures [C09] PInv(p) && e != nil && cn(p) > old(cn(p))
+//@   ensures [C09] placeholder_representable: typeof(e.Value) == ptrtag(updogv1.Query_Expression_Eq) && iref(e.Value) != nil
+//@        && e.Value.(*updogv1.Query_Expression_Eq).Eq != nil && 0 <= e.Value.(*updogv1.Query_Expression_Eq).Eq.Placeholder
+//@        && e.Value.(*updogv1.Query_Expression_Eq).Eq.Placeholder <= 2147483647
+//@ func [C09] (*parser).parseFieldList(p) (fields)
+//@   requires PInv(p)
+//@   modifies p.peekCount; p.token[*]; p.lexer.rd; p.lexer.lastPos
+//@   raises may
+//@   ensures [C09] PInv(p) && len(fields) >= 1
+//@   loop 1
+//@     invariant PInv(p) && len(fields) >= 1
+//@     invariant arr(fields) != nil && !(arr(fields) in old($alloc))
+
+//@ func [C09] decodeString(s) (result)
+//@ func [C09] decodePlaceholder(s) (result)
+
+// parse: T3 (a query exactly when there is no error), T4 (the whole input was consumed: the next item is EOF)
+//@ func [C09] (*parser).parse(p) (pq, err)
+//@   requires PInv(p)
+//@   modifies p.peekCount; p.token[*]; p.lexer.rd; p.lexer.lastPos
+//@   ensures [C09] error_means_no_query: err != nil ==> pq == nil
+//@   ensures [C09] query_is_complete: err == nil ==> pq != nil && pq.Expr != nil
+//@   ensures [C09] all_input_consumed: err == nil ==> tokTyp(p.lexer, cn(p)) == 1
+//@   ensures [C09] p.lexer == old(p.lexer)
+
+// ParseQuery: never panics, returns a query exactly when there is no error, and the lexer goroutine has finished
+//@ func [C09] ParseQuery(q) (pq, err)
+//@   ensures [C09] error_means_no_query: err != nil ==> pq == nil
+//@   ensures [C09] query_is_complete: err == nil ==> pq != nil && pq.Expr != nil
